@@ -17,10 +17,7 @@ Definition bit (k : N) (x : bool) : N := if x then 2 ^ k else 0.
 (** compact input forms.  [au s]: an ASCII-only string; its case mappings are the ASCII
     ones (the driver uses this form only after checking that the Rust standard library
     returned exactly these values).  [mku]: explicit characters. *)
-Definition to_ascii_upper (c : ascii) : ascii :=
-  if (97 <=? code c) && (code c <=? 122) then ascii_of_N (code c - 32) else c.
-Definition au (s : bytes) : ustr :=
-  mkS (List.map (fun c => mkU [c] [to_ascii_lower c]) s) (List.map to_ascii_lower s) (List.map to_ascii_upper s).
+Definition au (s : bytes) : ustr := ascii_ustr s.
 Definition mku (cs : list (bytes * bytes)) (lower upper : bytes) : ustr :=
   mkS (List.map (fun p => mkU (fst p) (snd p)) cs) lower upper.
 
@@ -29,7 +26,7 @@ Definition new_class (r : res cfg) : N := match r with Ok _ => 0 | Err => 1 | Pa
 
 (** bits: 0 model = code; 1 oracle (documents) = code; 2 the documents decide this
     configuration; 3 accepted parameters = documented parameters; known classes:
-    4 bounds, 5 short root, 6 0007 defaults, 7 array form *)
+    4 bounds, 5 short root, 6 0007 defaults, 7 array form; 8 configuration strings well-formed *)
 Definition new_mask (dbg : bool) (e : ext) (r : raw) (obs : N) : N :=
   let m := new dbg e r in
   let sp := LayoutSpec.parse e r in
@@ -38,7 +35,7 @@ Definition new_mask (dbg : bool) (e : ext) (r : raw) (obs : N) : N :=
   bit 2 (cfg_determined e r) +
   bit 3 (match m, sp with Ok c, Some sc => same_params c sc | _, _ => true end) +
   bit 4 (c11_cfg_bounds e r) + bit 5 (c11_cfg_short_root e r) +
-  bit 6 (c11_cfg_0007_defaults e r) + bit 7 (c11_cfg_array r).
+  bit 6 (c11_cfg_0007_defaults e r) + bit 7 (c11_cfg_array r) + bit 8 (raw_wf r).
 
 (** bits: 0 model = code; 1 oracle = code (vacuous when the documents forbid the
     configuration); 2 inputs well-formed; known classes: 3 zero tuples (0003),
@@ -49,7 +46,7 @@ Definition path_mask (c : cfg) (sp : option cfg) (id : ustr) (dg : bytes) (obs :
          | Some sc => res_bytes_eqb (LayoutSpec.map sc id dg) (refusal obs)
          | None => true
          end) +
-  bit 2 (ustr_wf id && ustr_wf (c_delim c) && digest_ok c dg) +
+  bit 2 (inputs_ok c id dg) +
   bit 3 (c11_0003_zero_tuples c) + bit 4 (c11_casefold c id) + bit 5 (c11_0007_ctrl c id).
 
 Definition check_layout (dbg : bool) (e : ext) (r : raw) (obs_new : N)
